@@ -28,8 +28,8 @@ RULE = ("case = (first event kind(s), tolerance, transform) with every continuat
 ASSUMPTIONS = ["user-domain and optimizer-domain violations of a synthetic result agree about feasibility"]
 EXHAUSTIVE = {"quick": True, "thorough": True}
 BOUNDS = {"quick": {"history_length": 3}, "thorough": {"history_length": 4}}
-REQUIRED = {"quick": {"histories": 300000, "states_compared": 1500000, "nan_first_histories": 20000, "flip_histories": 100000, "basic_optimizer_runs": 60, "__nontrivial__": 200},
-            "thorough": {"histories": 15000000, "states_compared": 100000000, "nan_first_histories": 1000000, "flip_histories": 5000000, "basic_optimizer_runs": 1000, "__nontrivial__": 2000}}
+REQUIRED = {"quick": {"histories": 300000, "states_compared": 1500000, "nan_first_histories": 20000, "flip_histories": 100000, "basic_optimizer_runs": 48, "__nontrivial__": 200},
+            "thorough": {"histories": 15000000, "states_compared": 100000000, "nan_first_histories": 1000000, "flip_histories": 5000000, "basic_optimizer_runs": 720, "__nontrivial__": 2000}}
 
 OBJ = [1.0, 2.0, 2.0, 3.0, float("nan")]
 FEAS = ["ok", "v0.1", "v2", "noinfo"]
